@@ -306,8 +306,11 @@ func (w *scionWorld) startRouter(i int, c *simnet.UDPConn) {
 			p.toSrv = p.scn.DstIA == scSrvIA && dstIP.Unmap() == netip.MustParseAddr(scSrvIP)
 			w.seen = append(w.seen, p)
 			out := raw
+			var extra [][]byte
 			if w.onRouter != nil {
 				drop, repl := w.onRouter(p)
+				// what onRouter adds travels with this packet or not at all
+				extra, w.extraOut = w.extraOut, nil
 				if drop {
 					continue
 				}
@@ -336,8 +339,6 @@ func (w *scionWorld) startRouter(i int, c *simnet.UDPConn) {
 			default:
 				continue
 			}
-			extra := w.extraOut
-			w.extraOut = nil
 			for _, x := range extra {
 				if _, err := c.WriteTo(x, dst); err != nil {
 					return
